@@ -374,7 +374,30 @@ func c18Deadlines(r *Run) {
 		}
 	}
 	termD := []time.Duration{time.Millisecond, time.Second, 10 * time.Second}[t.Draw(3)]
+	// what has arrived of the next message when an active read deadline fires:
+	// nothing; the frame header only; the header and a few payload bytes; a
+	// whole non-final fragment plus the beginning of the next frame
+	partial := t.Draw(4)
+	injectPartial := func() {
+		msg := Payload{Kind: 3, Len: 40, Seed: 99}.Bytes()
+		switch partial {
+		case 1:
+			peer.Inject(peer.Encode(wsref.Frame{Fin: true, Opcode: wsref.OpBinary, Payload: msg})[:2])
+		case 2:
+			b := peer.Encode(wsref.Frame{Fin: true, Opcode: wsref.OpBinary, Payload: msg})
+			peer.Inject(b[:len(b)-len(msg)+3])
+		case 3:
+			b := peer.Encode(wsref.Frame{Fin: false, Opcode: wsref.OpBinary, Payload: nil}, wsref.Frame{Fin: true, Opcode: wsref.OpCont, Payload: msg})
+			peer.Inject(b[:len(b)-len(msg)+1])
+		}
+		if partial > 0 {
+			r.S.Count("probe.active-read-deadline-with-partial-frame")
+		}
+	}
 	sig := fmt.Sprintf("deadline,terminal=%d", terminal)
+	if (terminal == 1 || terminal == 3) && partial > 0 {
+		sig += fmt.Sprintf(",partial=%d", partial)
+	}
 	r.Class = fmt.Sprintf("deadline/cli%v/t%d/n%d", o.LibClient, terminal, nSteps)
 	var pd []string
 	for _, s := range plan {
@@ -544,6 +567,7 @@ func c18Deadlines(r *Run) {
 		}
 		switch terminal {
 		case 1:
+			injectPartial()
 			nc.SetReadDeadline(time.Now().Add(termD))
 			start := r.S.Now()
 			_, err := nc.Read(make([]byte, 10))
@@ -569,6 +593,9 @@ func c18Deadlines(r *Run) {
 				hold = true
 				rc.Lib.Out().Cap = 1024
 				rc.Lib.Out().HardCap = true
+			}
+			if terminal == 3 {
+				injectPartial()
 			}
 			r.S.Go("blocked", func() {
 				if terminal == 3 {
